@@ -489,11 +489,17 @@ class _DetOS:
 
 class _DetDatetime(_dt.datetime):
     _tick = 0
+    _base = _dt.datetime(2022, 1, 1)     # UTC instant of tick 0
+    _step = 1                            # seconds per tick (clock_mode() changes both)
+
+    @classmethod
+    def _utc(cls, tick):
+        return _DetDatetime._base + _dt.timedelta(seconds=tick * _DetDatetime._step)
 
     @classmethod
     def utcnow(cls):
         _DetDatetime._tick += 1
-        return _dt.datetime(2022, 1, 1) + _dt.timedelta(seconds=_DetDatetime._tick)
+        return cls._utc(_DetDatetime._tick)
 
     # local wall-clock time is NOT UTC in this model, and its offset changes between calls (another machine, a DST switch):
     # code that records local time where UTC is promised becomes visible
@@ -502,14 +508,14 @@ class _DetDatetime(_dt.datetime):
     @classmethod
     def now(cls, tz=None):
         _DetDatetime._tick += 1
-        utc = _dt.datetime(2022, 1, 1) + _dt.timedelta(seconds=_DetDatetime._tick)
+        utc = cls._utc(_DetDatetime._tick)
         if tz is not None:
             return utc.replace(tzinfo=_dt.timezone.utc).astimezone(tz)
         return utc + _dt.timedelta(hours=cls._offsets[_DetDatetime._tick % 4])
 
     @classmethod
     def true_utc(cls, tick):
-        return _dt.datetime(2022, 1, 1) + _dt.timedelta(seconds=tick)
+        return cls._utc(tick)
 
     # conversions of clock readings (see _DetTime): naive results are local time in the same shifting zone
     @classmethod
@@ -531,7 +537,7 @@ class _DetTime:
 
     def time(self):
         _DetDatetime._tick += 1
-        return float(self._EPOCH0 + _DetDatetime._tick)
+        return (_DetDatetime._utc(_DetDatetime._tick) - _dt.datetime(1970, 1, 1)).total_seconds()
 
     def time_ns(self):
         return int(self.time()) * 10 ** 9
@@ -550,6 +556,28 @@ class _DetTime:
 _DET = _DetOS()
 
 
+@contextlib.contextmanager
+def dst_night(tz='CET-1CEST,M3.5.0,M10.5.0/3', first=_dt.datetime(2022, 3, 27, 2, 10), step=1800):
+    """The process runs in a daylight-saving zone and the harness clock walks through the night the clocks go forward: ticks
+    are `step` seconds apart and tick 1 is the UTC instant `first` (02:10, 02:40, 03:10 ...: read as *local* wall-clock
+    times the first two do not exist and the third precedes the second). Code that interprets the recorded naive UTC
+    time in the local zone mis-orders them. Call after determinism()."""
+    saved = os.environ.get('TZ')
+    os.environ['TZ'] = tz
+    _time.tzset()
+    _DetDatetime._tick = 0
+    _DetDatetime._base, _DetDatetime._step = first - _dt.timedelta(seconds=step), step
+    try:
+        yield
+    finally:
+        if saved is None:
+            os.environ.pop('TZ', None)
+        else:
+            os.environ['TZ'] = saved
+        _time.tzset()
+        _DetDatetime._base, _DetDatetime._step = _dt.datetime(2022, 1, 1), 1
+
+
 def determinism(seed=0):
     """Make nonces, keys and snapshot timestamps (hence object names) a function of the case vector."""
     import replicat.repository as R
@@ -560,3 +588,4 @@ def determinism(seed=0):
         R.time = _DetTime()
     _DET.reseed(seed)
     _DetDatetime._tick = seed % 1000 * 10
+    _DetDatetime._base, _DetDatetime._step = _dt.datetime(2022, 1, 1), 1
